@@ -1094,6 +1094,35 @@ package yang
 //@     invariant[a-concatenated-string-is-the-token-of-its-first-piece] t == atentry(t)
 //@     body_returns[what-is-handed-on-is-the-first-piece] result == old(t)
 //
+// C02, token classes (partial contracts: the cursor preconditions of the calls
+// are assumed, see C16 for the cursor itself).
+// An unquoted token ends at, and only at, white space, a quote, ";", "{", "}" or
+// the end of the input (RFC 7950 6.1.3); every other character -- a "+", a "/",
+// a multi-byte character -- belongs to it.
+//@ func lexUnquoted props C02
+//@   only before:
+//@   before[an-unquoted-token-ends-only-at-a-delimiter] (*lexer).emit c == ' ' || c == '\r' || c == '\n' || c == '\t' || c == ';' || c == '"' || c == '\'' || c == '{' || c == '}' || c == eof
+//@   before[every-other-character-belongs-to-the-token] (*lexer).next c != ' ' && c != '\r' && c != '\n' && c != '\t' && c != ';' && c != '"' && c != '\'' && c != '{' && c != '}' && c != eof
+// In a double-quoted string only \n \t \" \\ are escapes; any other backslash
+// pair is an error -- reported at the backslash -- unless the string is the
+// argument of a pattern statement; a string that is not closed is reported at
+// its opening quote, at the end of the input only.
+//@ func lexQString props C02 C16
+//@   only before:
+//@   before[a-string-that-is-not-closed-is-reported-where-it-opens] (*lexer).ErrorfAt#1 c == eof && arg1 == line && arg2 == col
+//@   before[an-unknown-escape-is-an-error-except-in-a-pattern] (*lexer).ErrorfAt#2 !l.inPattern && c != 'n' && c != 't' && c != '"' && c != '\\' && arg1 == bline && arg2 == bcol
+// Between tokens: ";", "{" and "}" are tokens of their own; so is a "+" that
+// stands in front of a quote.
+//@ func lexGround props C02
+//@   only before:
+//@   before[punctuation-is-a-token-of-its-own] (*lexer).emit#1 c == ';' || c == '{' || c == '}'
+//@   before[a-plus-in-front-of-a-quote-is-a-token-of-its-own] (*lexer).emit#3 c == '+'
+// Parse: on rejection no statements are returned and the error is not nil; on
+// acceptance the error is nil.
+//@ func Parse props C02
+//@   only ensures
+//@   ensures[rejected-means-no-statements] result1 != nil ==> len(result) == 0
+//
 // peek and acceptRun leave the cursor inside the input; peek leaves the
 // position where it was.
 //@ func (*lexer).peek props C16 C01
